@@ -587,6 +587,20 @@ func (sa *Safe) stdlib(fr *frame, st *State, x *ssa.Call, callee *ssa.Function, 
 			st.guards[er.Sym] = &Guard{WhenNil: p}
 		}
 		return callResult{st: st, vals: []AVal{res, er}}
+	case "encoding/hex.Decode":
+		// hex.Decode(dst, src) writes len(src)/2 octets into dst without checking its size: it
+		// panics (index out of range) unless 2*len(dst) >= len(src) - 1
+		if args[0].Len != nil && args[1].Len != nil {
+			need("safe.stdlib-pre", args[1].Len.addConst(-1), args[0].Len.scale(2), "hex.Decode panics when dst is shorter than len(src)/2")
+		} else {
+			sa.unsup(x.Pos(), "hex.Decode with unknown operand lengths in %s", fr.fn.String())
+		}
+		sa.havocElems(st, args[0])
+		n := sa.boundedAtom(fr, st, types.Typ[types.Int], desc+".n", Itv{0, posInf})
+		if args[0].Len != nil {
+			st.assume(n.Lin.add(args[0].Len, -1)) // n <= len(dst)
+		}
+		return callResult{st: st, vals: []AVal{n, sa.errResult(fr, st, desc+".err")}}
 	case "crypto/aes.NewCipher":
 		blk := AVal{Kind: avIface, Sym: sa.mSym(fr, desc), HasSym: true, Type: sig.Results().At(0).Type()}
 		er := sa.errResult(fr, st, desc+".err")
@@ -686,7 +700,7 @@ func safePureCallee(f *ssa.Function) bool {
 		}
 	case "encoding/hex":
 		switch f.Name() {
-		case "EncodeToString", "DecodeString":
+		case "EncodeToString", "DecodeString", "Decode":
 			return true
 		}
 	case "net":
